@@ -1,6 +1,7 @@
 package zzverif
 
 import (
+	"errors"
 	"io"
 	"net/http"
 	"net/http/httptest"
@@ -23,8 +24,11 @@ type UpstreamT struct {
 	Header     http.Header // request headers as received
 	Body       string
 	HasBody    bool
+	Fail       bool // the backend accepts the connection and drops it without answering (bad gateway)
 	srv        *httptest.Server
 }
+
+var errUpstreamDropped = errors.New("EOF (backend dropped the connection)")
 
 var Upstream = &UpstreamT{}
 
@@ -60,6 +64,14 @@ func VerifModel_zzverif_StartUpstreamN(i int) string {
 
 func (u *UpstreamT) handler() http.Handler {
 	return http.HandlerFunc(func(w http.ResponseWriter, r *http.Request) {
+		if u.Fail {
+			if hj, ok := w.(http.Hijacker); ok {
+				if conn, _, err := hj.Hijack(); err == nil {
+					conn.Close()
+					return
+				}
+			}
+		}
 		u.Calls++
 		u.Method, u.Host, u.Path, u.RawQuery, u.Header = r.Method, r.Host, r.URL.Path, r.URL.RawQuery, r.Header
 		b, _ := io.ReadAll(r.Body)
@@ -81,6 +93,14 @@ func StartUpstream() string {
 	u := &UpstreamT{RespStatus: 200, RespHeader: http.Header{}}
 	Upstream = u
 	u.srv = httptest.NewServer(http.HandlerFunc(func(w http.ResponseWriter, r *http.Request) {
+		if u.Fail {
+			if hj, ok := w.(http.Hijacker); ok {
+				if conn, _, err := hj.Hijack(); err == nil {
+					conn.Close()
+					return
+				}
+			}
+		}
 		u.Calls++
 		u.Method, u.Host, u.Path, u.RawQuery, u.Header = r.Method, r.Host, r.URL.Path, r.URL.RawQuery, r.Header
 		b, _ := io.ReadAll(r.Body)
@@ -118,6 +138,9 @@ func VerifModel_http_Transport_RoundTrip(t *http.Transport, req *http.Request) (
 		if Upstreams[i] != nil && req.URL.Host == "upstream"+itoa(i)+".test" {
 			u = Upstreams[i]
 		}
+	}
+	if u.Fail {
+		return nil, errUpstreamDropped
 	}
 	u.Calls++
 	u.Method, u.Host, u.Path, u.RawQuery, u.Header = req.Method, req.Host, req.URL.Path, req.URL.RawQuery, req.Header
